@@ -474,6 +474,20 @@ def extract(build, ir_text=None):
                 may.add(fn)
                 changed = True
     M.may_grow = may
+    M.benign_calls = set()
+    # certificate for `may` (checked in Lean, gen_mayGrow): the complement is closed under direct calls and under
+    # type-compatible indirect calls, and contains no function that writes the flag word
+    edges = set()
+    for fn in mod.order:
+        if fn in may:
+            continue
+        for c in cg[fn]:
+            if c in fdefs:
+                edges.add((fn, c))
+        for sg in icalls.get(fn, ()):
+            for c in bysig.get(sg, ()):
+                edges.add((fn, c))
+    M.nogrow_edges = sorted(edges)
     # ---- slice: functions that reach a sensitive symbol through direct calls / spawner edges
     rev = {}
     for a, bs in cg.items():
@@ -907,6 +921,8 @@ def _events(M, fname, i, fn_ids, fdefs, blk=None, var_asserts=()):
         elif c in fdefs:
             if c in M.may_grow:
                 evs.append((("havoc", "call " + c), i.text))
+            else:
+                M.benign_calls.add(c)          # no event: certified by `gen_mayGrow` (c is outside the closed set mayGrow)
         # other externals: benign (checked by `classified` in Lean)
     return evs
 
@@ -1168,6 +1184,18 @@ def render(M, C, origin="current tree"):
     o.append("/-- (function, caller) program ids: function handed to a spawner (Cap.spawners) as a constant argument in `caller`: %s -/" % (
         ", ".join("%s in %s" % h for h in M.handovers)))
     o.append("abbrev handovers : List (Nat × Nat) := [" + ", ".join("(%d, %d)" % (pid[a_], pid[b_]) for a_, b_ in M.handovers) + "]\n")
+    o.append("/-- UNTRUSTED summary `mayGrow` (program ids): functions that may change the flag word; calls of these from the slice are `havoc`: %d functions -/" % len(M.may_grow))
+    o.append("abbrev mayGrowIds : List Nat := " + _lnat_list(sorted(pid[x] for x in M.may_grow)) + "\n")
+    o.append("/-- call edges (caller, callee) leaving a function OUTSIDE mayGrow: direct calls of defined functions, and for every indirect\n"
+             "    call every address-taken function of the same LLVM type -/")
+    chunks = [M.nogrow_edges[k:k + 300] for k in range(0, len(M.nogrow_edges), 300)] or [[]]
+    for ci, ch in enumerate(chunks):             # (one long literal exceeds the elaborator's recursion depth)
+        o.append("def noGrowEdges%d : List (Nat × Nat) := [" % ci + ", ".join("(%d, %d)" % (pid[a_], pid[b_]) for a_, b_ in ch) + "]")
+    o.append("def noGrowEdges : List (Nat × Nat) := List.flatten [" + ", ".join("noGrowEdges%d" % ci for ci in range(len(chunks))) + "]  -- %d edges\n" % len(M.nogrow_edges))
+    o.append("/-- defined functions outside the slice that slice functions call directly and that are transcribed as NO event: %s -/" % ", ".join(sorted(M.benign_calls)))
+    o.append("abbrev benignCallees : List Nat := " + _lnat_list(sorted(pid[x] for x in M.benign_calls)) + "\n")
+    o.append("/-- functions of `flagWrites` -/")
+    o.append("abbrev flagWriters : List Nat := " + _lnat_list(sorted(set(pid[x] for x, _ in M.flag_writes))) + "\n")
 
     def op(t):
         if t[0] == "nop":
@@ -1209,6 +1237,7 @@ def render(M, C, origin="current tree"):
     table("nodeAt", "Node", ["⟨%d, %s, %s⟩" % (fn, op(t), _lnat_list(succ)) for fn, t, succ in M.nodes], "⟨0, .nop, []⟩",
           "node n = ⟨function, event, successors⟩ (decision tree on n)")
     table("fnEntryAt", "Nat", [str(e) for e in M.entries_of], "0", "entry node of function n")
+    table("mayGrowAt", "Bool", ["true" if x in M.may_grow else "false" for x in M.mod.order], "false", "program id n ∈ mayGrowIds (decision tree)")
     o.append("abbrev graph : Graph := ⟨%d, nodeAt, fnEntryAt, entryFns⟩\n" % len(M.nodes))
     o.append("-- functions whose open(2) flags / fopen mode variable is tracked: %s; untracked (mode 3 = both capabilities required): %s" % (M.mode_tracked, M.mode_untracked))
     o.append("-- assert-mask variables tracked (bits %d.. of the word): %s; asserts on a select/phi of constants: %s" % (SHIFT, M.mask_tracked, M.assert_choices))
